@@ -71,6 +71,16 @@ Theorem C19_subscribe_one_entry : forall pre c ch cr,
 Proof. exact subscribe_one_entry. Qed.
 Print Assumptions C19_subscribe_one_entry.
 
+(* a SUBSCRIBE of a channel the connection is subscribed to already — the channel named twice in
+   one command (SUBSCRIBE a a, SUBSCRIBE a b a: one Subscribe operation per occurrence, each with
+   its own confirmation) or again in a later command — changes no delivery to anybody *)
+Theorem C19_subscribe_command_duplicates : forall pre c ch q c' ch',
+  subscribed pre c ch = true ->
+  chan_msgs ch' (outq (run init (pre ++ Subscribe c ch :: q)) c') =
+  chan_msgs ch' (outq (run init (pre ++ q)) c').
+Proof. exact resubscribe_no_effect. Qed.
+Print Assumptions C19_subscribe_command_duplicates.
+
 (* after a disconnect the connection is in no channel's table ... *)
 Theorem C19_disconnect_removes_everywhere : forall pre c ch,
   in_tab (run init (pre ++ [Disconnect c])) c ch = false.
